@@ -59,6 +59,21 @@ CHECKS = {
     text="Trace_Detectors judges each recorded call: curvature/Menger/DFDT single pass/L-method get_knee results must lie in the noise-merged argmax/argmin set of the criterion recomputed by the harness from the stated formula; dfdt.knee and lmethod.knee results must be reachable results of the loop machines (DfdtFinals/LFinals explore all noise-tied optimisers); termination via loop back-edge budget. LRefine.tla proves termination of all loops for every table up to n=13.",
     note="criteria recomputed from uts.gradient / isodata (trusted) and lmethod.compute_error on prefixes; ties within noise accept any optimiser; limit >= 4",
     ref="5/C09"),
+ "C11": dict(
+    technique="TLC model checking of the four single-pass linkage machines against the independent declarative NewCluster definition over all integer layouts (negative instances: strict comparison, stale anchor, window off by one) + TLC-generated layouts x thresholds replayed into clustering.* + TLC trace validation of random float layouts over exact-fraction decision tables",
+    text="Clustering.tla holds one machine per linkage with the code's running state (previous x, anchor, exact rational centroid + size, window start) and the declarative rule; TLC proves machine = rule, labels contiguous from 0 and monotone cluster counts for single/complete linkage on every layout in 0..8 (n<=5, t=j/8; thorough 0..12, n<=7), emits expected labels (both outcomes on ambiguous centroid ties) and the harness replays ~12k groups exactly; random float layouts are judged by Trace_Clustering over decision tables computed with fractions.Fraction.",
+    note="exact-tie semantics by construction (t = p/q with a single correctly rounded division); centroid ties at cluster size >= 2 ambiguous; near band 1e-12 on float layouts",
+    ref="5/C11"),
+ "C12": dict(
+    technique="TLC model checking of the per-cluster selection loop (ClusterFilter.tla) against ClusterProps for every labelling / score table / hull pattern (negative instance: pick worst) + TLC trace validation of filter_clusters / filter_clusters_corners calls with labels, independently recomputed ranking scores and hull membership",
+    text="RankedClause/HullClause state the property (strictly increasing subset, exactly one per cluster with maximal fit x relative-height score; hull mode: at most one per cluster, none from a cluster whose span holds no lower-hull point; corner variant maximises the corner-triangle score). The machine is checked against them for all inputs with <=4 (thorough 5) knees; ~1.5k recorded calls per quick run (4 linkages x thresholds x 5 modes) are judged by Trace_Cluster with noise-merged score ranks.",
+    note="labels from the library's linkage (C11), hull from graham_scan_lower (C18); scores recomputed independently of smooth_ranking; NaN-score clusters structural only",
+    ref="5/C12"),
+ "C19": dict(
+    technique="TLC model checking of the greedy confusion-matrix machine and the nearest-neighbour error definitions (accounting identities, TP <= maximum matching, score ranges; negative instances: re-claiming knees, raw fp) + TLC-generated (curve, knees, expected, t, strategy) cases replayed into evaluation.*",
+    text="Evaluation.tla transcribes cm's greedy claim loop and defines the four matching strategies; TLC checks TP+FN=|E|, TP+FP=|K|, sum=n, greedy count, error >= 0 and = 0 on exact detection, accuracy/F1 in [0,1], MCC^2<=1, =1 on perfect detection on every enumerated case and emits expected matrices and exact error values; ~30k behaviours per quick run replayed into cm/mae/mse/rmse/rmspe/accuracy/f1score/mcc (integers exactly, reals rel 1e-9).",
+    note="x = 0..n-1 with n-1 a power of two so distance/range <= t is exact; first-index tie rule of numpy.argmin; rmspe evaluated over fractions from the TLC-emitted matching; score formula mismatches that respect the stated ranges are DRIFT notes",
+    ref="5/C19"),
 }
 
 PENDING = {}
